@@ -7,7 +7,10 @@ PID = "C19"
 RULE = ("cases are generated per helper (workload, range, linspace, logspace, closest, list templates, statistics); "
         "non-trivial = workload with remainder != 0 (or zero workers: exit), or closest with a tie / out-of-range target / duplicates, or a clamped "
         "Sub_List index, or a ragged/rectangular transpose with >1 row and >1 column, or range with a step that does not divide "
-        "the span, or a grid with >= 3 points, or a data set with >= 3 distinct values; distinct by case text")
+        "the span, or a grid with >= 3 points, or a data set with >= 3 distinct values; distinct by case text. "
+        "Closest-element lists cover the whole finite double range (scaled by 2^e, elements of the order of DBL_MAX, neighbours 1..1000 ulp or a relative 1e-16..1e-6 apart, "
+        "subnormals/signed zeros, mixed magnitudes) with targets on and 0..1000 ulp / relative 1e-16..1e-6 off elements and midpoints; nearest is decided in exact rational arithmetic "
+        "with the a-priori slack 2^-51 of the two rounded distances; grids also at scales 1e-290..1e290 and with nearly equal end points")
 LEVEL_TEXT = ("Theorems (Coq, unbounded, all listed in evidence.coverage.theorems): Workload_Distribution meets its full specification for every workers >= 1 and every tasks (zero workers exit); "
               "Range enumerates exactly [min, min+-step, ...) with ceil(|max-min|/step) elements for step > 0 (a non-positive step makes the ascending loop diverge: model outcome None, outside the quantifier); "
               "Lists_Equal/Flatten/List_Contains/Find_Indices/Combine/Sub_List (entries, clamping, empty cases)/Transpose (rectangular, ragged -> exit, empty -> empty) against the standard list functions; "
